@@ -10,16 +10,16 @@ VERIF = os.path.dirname(os.path.dirname(os.path.abspath(__file__)))
 # property -> (level category, technique, level text, level note, design ref)
 T = {
  "C01": ("exploration", "runtime trace monitor (per-client automaton) over lock-step histories of the real daemon",
-         "Online trace automaton per announced client instance judges every stdout line of the real daemon (ASan/UBSan build) on generated histories with heavy id reuse, re-announcement while live, late/duplicate replies and hook-fired timeouts; held on the histories explored, nothing more. The module interface no shipped module uses is driven through a fixture module (site_api) loaded by the real daemon and compared line for line with an executable model of the core; the differences that concern this property are taken here.",
+         "Online trace automaton per announced client instance judges every stdout line of the real daemon (ASan/UBSan build) on generated histories with heavy id reuse, re-announcement while live, late/duplicate replies and hook-fired timeouts; held on the histories explored, nothing more. A verdict produced by the real request timer while the server is silent is judged by the order of system calls under strace: its write must precede the read that delivers the server's withdrawal. The module interface no shipped module uses is driven through a fixture module (site_api) loaded by the real daemon and compared line for line with an executable model of the core; the differences that concern this property are taken here.",
          "Trusts the guarded sync pseudo-command for attributing output to input lines; message grammar taken from the daemon's own call sites.", "4/C01"),
  "C02": ("exploration", "runtime trace monitor (one-sided acceptance oracle) over enumerated event orders with hook-fired timeouts",
-         "Every D/R line emitted by the real daemon is judged against the input history (required data, unanswered queries, +! without account, NO replies) over all arrival orders of the data items x service tables x reply scripts, timeout/hurry-up inserted at every position; random histories with SIGUSR1 reloads; service tables of 31-40 services; directed reload scripts; real-timer id re-use judged by a one-sided clock oracle. The module interface no shipped module uses is driven through a fixture module (site_api) loaded by the real daemon and compared line for line with an executable model of the core; the differences that concern this property are taken here.",
+         "Every D/R line emitted by the real daemon is judged against the input history (required data, unanswered queries, +! without account, NO replies) over all arrival orders of the data items x service tables x reply scripts, timeout/hurry-up inserted at every position; random histories with SIGUSR1 reloads; service tables of 31-40 services; directed reload scripts; real-timer id re-use judged by a one-sided clock oracle. Real timers across a reload that raises the timeout. The module interface no shipped module uses is driven through a fixture module (site_api) loaded by the real daemon and compared line for line with an executable model of the core; the differences that concern this property are taken here.",
          "Required items are read from the policy line the daemon itself prints; timeouts are fired through the guarded hook exactly as the one-shot timer would.", "4/C02"),
  "C03": ("exploration", "runtime trace monitor (bounded-progress oracle evaluated after every step) + stats cross-check",
          "After every input line the monitor checks that no open client satisfies all release conditions without a verdict in that same step; histories weight late/duplicate/unexpected replies, repeated passwords, timeouts; daemon crash counts as everybody stuck; bursts of 40-700 clients written in one piece on the unhooked channel are judged when the daemon sleeps in epoll_wait with its input drained (read from /proc and the pipe, not a deadline). Half of the bursts run over ONE socket that is the daemon's standard input and output (as under an IRC server) with a reader who falls behind. The module interface no shipped module uses is driven through a fixture module (site_api) loaded by the real daemon and compared line for line with an executable model of the core; the differences that concern this property are taken here.",
          "Bounded form of liveness as the statement itself gives it (same step); generator restricted to unambiguous replies and passwords.", "4/C03"),
  "C04": ("exploration", "differential runtime monitoring: same history with and without stray replies, outputs compared step by step",
-         "Pairs of real-daemon runs that differ only by inserted stray replies/unlinked notices (stale serial, unknown/not-awaited service, malformed or near-miss tag) must produce identical output; any output in the step of the stray line is a violation; directed slot-reuse (reload) and serial-wrap (2^8..2^16 connections) scenarios; tables of 33-64 services with replies from the ones the daemon refused, judged by the trace monitor on the sanitized and the plain build.",
+         "Pairs of real-daemon runs that differ only by inserted stray replies/unlinked notices (stale serial, unknown/not-awaited service, malformed or near-miss tag) must produce identical output; any output in the step of the stray line is a violation; directed slot-reuse (reload) and serial-wrap (2^8..2^16 connections) scenarios; tables of 33-64 services with replies from the ones the daemon refused, judged by the trace monitor on the sanitized and the plain build. Replies that bear a retired service name, and replies from a service never asked after a reload misspelt the type of the awaited one.",
          "Stray-ness is computed from the awaiting pairs observed in the base run; tags that strtol/strtoul would read as a live tag are not generated.", "4/C04"),
  "C05": ("exploration", "runtime trace monitor on verdict / relay content",
          "Trace rules tie each k/R/D/M/C line of the real daemon to the reply that caused it (text byte-for-byte, account only from awaited login-type services of this instance, class from the reference rule evaluator, +x when hiding was requested). The module interface no shipped module uses is driven through a fixture module (site_api) loaded by the real daemon and compared line for line with an executable model of the core; the differences that concern this property are taken here.",
@@ -37,7 +37,7 @@ T = {
          "Every stdout line from the banner on must match one production of the message grammar; client messages must carry the announced id, an address text that Python's ipaddress reads as the announced value, and the announced port; run with no hook commands and with warning/error-producing events and several logs sections. The module interface no shipped module uses is driven through a fixture module (site_api) loaded by the real daemon and compared line for line with an executable model of the core; the differences that concern this property are taken here.",
          "Grammar extracted from the iauth_send call sites; debug mode excluded by the statement.", "4/C09"),
  "C10": ("exploration", "runtime counting monitor vs `? stats` + ASan/LSan at exit + real-timer runs",
-         "A model set of live clients is compared with the daemon's reported 'in use' count at random points of long histories (thousands of clients, id reuse, duplicate announcements); end of input must give exit 0 with no leak and no use-after-free, including runs with real 1-second timers. One long pipelined history runs over a shared socket with a slow reader. The module interface no shipped module uses is driven through a fixture module (site_api) and compared line for line with an executable model of the core: request counters and callback counts are taken here.",
+         "A model set of live clients is compared with the daemon's reported 'in use' count at random points of long histories (thousands of clients, id reuse, duplicate announcements); end of input must give exit 0 with no leak and no use-after-free, including runs with real 1-second timers. End of input with 200 000 (thorough: 600 000) requests pending, announced in ascending / descending id order. One long pipelined history runs over a shared socket with a slow reader. The module interface no shipped module uses is driven through a fixture module (site_api) and compared line for line with an executable model of the core: request counters and callback counts are taken here.",
          "LeakSanitizer decides 'released'; real-timer runs use wall-clock waits only to let timers expire, never as verdicts.", "4/C10"),
  "C11": ("exploration", "reference-model monitor: Python rule evaluator vs class field of the real daemon's verdicts",
          "Random rule tables (names whose ASCII order differs from case-insensitive order, all criteria subsets, CIDR/wildcard masks) x probe clients built to hit and just-miss each criterion; the class on D/R and the U upgrade must equal the reference model's.",
